@@ -305,12 +305,12 @@ textbook(Quantity q, const Geo& g, const std::vector<int>& bins, bool additive, 
   // such bins are outside the regular region
   std::map<int, double> vgmax;
   // The magnitudes allow for an absolute uncertainty of the matrix elements proportional to the largest element: the projector works
-  // with rows obtained through symmetries, the explicit rows are computed directly (build_case accepts differences up to 1e-6*pmax).
+  // with rows obtained through symmetries, the explicit rows are computed directly (build_case accepts differences up to 5e-7*pmax).
   double pmax = 0;
-  for (int bi : bins)
-    for (auto& e : g.bins[bi].row)
+  for (auto& b : g.bins)
+    for (auto& e : b.row)
       pmax = std::max(pmax, double(std::fabs(e.second)));
-  const double dp = pmax / 16;
+  const double dp = pmax / 4;
   for (int bi : bins)
     {
       const BinRec& b = g.bins[bi];
@@ -538,7 +538,7 @@ build_case(Case& k, vh::Rng& rng)
     // the configuration is not used.
     double pmax = 0;
     const double d = row_discrepancy(k.g, k.image, *k.ix, c.symflags, &pmax);
-    if (d > 1.e-6 * pmax)
+    if (d > 5.e-7 * pmax)
       return false;
   }
   k.same_proj = !k.g.pdi->is_tof_data() || c.use_tofsens;
